@@ -103,6 +103,13 @@ def gen_cfg(r, tier, dims=(1, 2, 2, 2, 3, 3, 4), versions=(6, 6, 6, 2, 3, 7, 8),
         cfg["lmax"] = cfg["lmin"] + 1 if cfg["lmin"] > 1 else 2
         cfg["a"], cfg["b"] = cfg["a"][:cfg["dim"]] + [0.0] * max(0, cfg["dim"] - len(cfg["a"])), None
         cfg["b"] = [x + r.choice(W_CHOICES) for x in cfg["a"]]
+        if r.random() < 0.5:
+            # lopsided trees: benefits weighted towards one end of every dimension; with start levels >= 3 the rotations
+            # reach points whose level is below lmin
+            cfg["bias"] = [r.choice(["right", "left"]), r.choice([1, 2, 4])]
+            if r.random() < 0.5:
+                cfg.update(dim=r.choice([1, 2]), lmin=3, lmax=r.choice([3, 4]), safety=r.choice([0.0, 0.1]))
+                cfg["a"], cfg["b"] = cfg["a"][:cfg["dim"]], cfg["b"][:cfg["dim"]]
     return cfg
 
 
@@ -199,7 +206,8 @@ class DimwiseSim:
             self.ctx.real.add("ErrorCalculatorSingleDimVolumeGuided")
         else:
             self.err = SimErrorCalculator(self.rk, p_zero=c["p_zero"], p_tie=c["p_tie"], mode=c.get("mode", "mix"),
-                                          use_epoch=c.get("use_epoch", False))
+                                          use_epoch=c.get("use_epoch", False), bias=tuple(c["bias"]) if c.get("bias") else None,
+                                          domain=(list(c["a"]), list(c["b"])))
         return self
 
     # -- driver -----------------------------------------------------------
